@@ -331,6 +331,21 @@ def fam_C03(tier, seed):
                     f["kind"] = kind
                 b.con(cls, **f)
                 ps.append(b.done())
+    # precedence between task groups (and between a task and a group)
+    for kind, off, op, shape in itertools.product(("lax", "strict"), (0, 1), [(), (1,), (2,)], ("gg", "tg", "gt")):
+        b = PB(4 if shape != "gg" else 5, tag="TaskPrecedence-groups")
+        ts = _mix(b, ("F1", "F1", "F1", "Z") if shape == "gg" else ("F1", "F1", "F2"), optional=op)
+        if shape == "gg":
+            g1 = b.con("UnorderedTaskGroup", tasks=ts[:2], interval=[], length=[])
+            g2 = b.con("UnorderedTaskGroup", tasks=ts[2:], interval=[], length=[])
+            b.con("TaskPrecedence", before=ts[0], after=ts[2], before_g=g1, after_g=g2, offset=off, kind=kind)
+        elif shape == "tg":
+            g2 = b.con("UnorderedTaskGroup", tasks=ts[1:], interval=[], length=[])
+            b.con("TaskPrecedence", before=ts[0], after=ts[1], before_g=0, after_g=g2, offset=off, kind=kind)
+        else:
+            g1 = b.con("OrderedTaskGroup", tasks=ts[:2], interval=[], length=[], kind="lax")
+            b.con("TaskPrecedence", before=ts[0], after=ts[2], before_g=g1, after_g=0, offset=off, kind=kind)
+        ps.append(b.done())
     # N tasks in time intervals
     for ks, op, n, kind, ivs in itertools.product([("F1", "F1"), ("F2", "F1", "Z"), ("V", "F1")], [(), (0,)],
                                                   (0, 1, 2, 3), ("exact", "min", "max"),
